@@ -1,4 +1,5 @@
 import Crd.Props.C02
+import Crd.Props.C02Float
 #print axioms Crd.Props.C02.starts_gapless
 #print axioms Crd.Props.C02.total_is_sum
 #print axioms Crd.Props.C02.timeline_by_instance
@@ -6,3 +7,6 @@ import Crd.Props.C02
 #print axioms Crd.Props.C02.rest_is_silent
 #print axioms Crd.Props.C02.release_before_strike
 #print axioms Crd.Props.C02.share_preserves_order
+#print axioms Crd.Props.C02.instance_length_is_nearest
+#print axioms Crd.Props.C02.numOver_is_exact
+#print axioms Crd.Props.C02.float_rounding_can_miss
